@@ -439,7 +439,8 @@ Record call := {
   c_plan : pmessage;           (* RPCCall.Response *)
   c_resp : pmsg;               (* the protobuf answer *)
   c_idx : list nat;            (* entity calls: positions of the representations of the requested type *)
-  c_nreps : nat                (* entity calls: number of representations *)
+  c_nreps : nat;               (* entity calls: number of representations *)
+  c_ents : option (list nat)   (* follow-up calls of an entity lookup: positions of the representations of its type *)
 }.
 
 (* mergeEntities (left is the root object) *)
@@ -470,6 +471,26 @@ Definition validate_entities (resp : json) (idx : list nat) (nreps : nat) : res 
     if Nat.eqb (length ents) (length idx) then Ok tt else Err EEntityCount
   end.
 
+(* flattenList's loop: a nested array is descended (the path applies below the innermost items), a
+   null item is skipped, every other item goes to flattenObject ([f]) with the same path.  Counting
+   version and, below, the assigning version. *)
+Fixpoint flat_item (f : json -> res nat) (item : json) {struct item} : res nat :=
+  match item with
+  | JArr l =>
+    (fix go (l : list json) : res nat :=
+       match l with
+       | [] => Ok 0%nat
+       | x :: r => a <- flat_item f x ;; b <- go r ;; Ok (a + b)%nat
+       end) l
+  | JNull => Ok 0%nat
+  | _ => f item
+  end.
+Fixpoint flat_items (f : json -> res nat) (l : list json) : res nat :=
+  match l with
+  | [] => Ok 0%nat
+  | x :: r => a <- flat_item f x ;; b <- flat_items f r ;; Ok (a + b)%nat
+  end.
+
 (* flattenObject / flattenList, counting the targets *)
 Fixpoint flat_count (path : list bytes) (value : json) : res nat :=
   match path with
@@ -478,7 +499,7 @@ Fixpoint flat_count (path : list bytes) (value : json) : res nat :=
     match jget_go seg value with
     | None => Err ENotFound
     | Some (JObj o) => flat_count rest (JObj o)
-    | Some (JArr items) => ns <- map_res (flat_count rest) items ;; Ok (fold_left Nat.add ns 0%nat)
+    | Some (JArr items) => flat_items (flat_count rest) items
     | Some JNull => Ok 0%nat           (* a null parent is skipped (it has no resolver context either) *)
     | Some _ => Err EExpected
     end
@@ -489,6 +510,26 @@ Definition set_target (elem : bytes) (resolved : json) (target : json) : json :=
   match target with
   | JObj o => JObj (obj_set elem (match jget_go elem resolved with Some x => x | None => JNull end) o)
   | _ => target
+  end.
+
+Definition upd := json -> list json -> res (json * list json).
+
+Fixpoint upd_item (f : upd) (item : json) (vals : list json) {struct item} : res (json * list json) :=
+  match item with
+  | JArr l =>
+    p <- (fix go (l : list json) (vals : list json) : res (list json * list json) :=
+            match l with
+            | [] => Ok ([], vals)
+            | x :: r => p <- upd_item f x vals ;; q <- go r (snd p) ;; Ok (fst p :: fst q, snd q)
+            end) l vals ;;
+    Ok (JArr (fst p), snd p)
+  | JNull => Ok (JNull, vals)
+  | _ => f item vals
+  end.
+Fixpoint upd_items (f : upd) (l : list json) (vals : list json) : res (list json * list json) :=
+  match l with
+  | [] => Ok ([], vals)
+  | x :: r => p <- upd_item f x vals ;; q <- upd_items f r (snd p) ;; Ok (fst p :: fst q, snd q)
   end.
 
 (* the same traversal, assigning the resolved values to the targets in order *)
@@ -508,7 +549,7 @@ Fixpoint flat_update (elem : bytes) (path : list bytes) (value : json) (vals : l
       | Some (JObj o) =>
         p <- flat_update elem rest (JObj o) vals ;; Ok (JObj (obj_set seg (fst p) vo), snd p)
       | Some (JArr items) =>
-        p <- map_state (flat_update elem rest) items vals ;; Ok (JObj (obj_set seg (JArr (fst p)) vo), snd p)
+        p <- upd_items (flat_update elem rest) items vals ;; Ok (JObj (obj_set seg (JArr (fst p)) vo), snd p)
       | Some JNull => Ok (value, vals)
       | Some _ => Err EExpected
       end
@@ -516,8 +557,26 @@ Fixpoint flat_update (elem : bytes) (path : list bytes) (value : json) (vals : l
     end
   end.
 
-(* mergeWithPath *)
-Definition merge_with_path (base resolved : json) (path : list bytes) : res json :=
+(* the entities a follow-up call of an entity lookup belongs to: the positions of [idx] that exist, in
+   the order of [idx] *)
+Fixpoint select_items (idx : list nat) (items : list json) : list (nat * json) :=
+  match idx with
+  | [] => []
+  | i :: r => match nth_error items i with
+              | Some x => (i, x) :: select_items r items
+              | None => select_items r items
+              end
+  end.
+(* Go updates the selected values in place; here they are written back to their positions *)
+Fixpoint write_back (pos : list nat) (us : list json) (items : list json) : list json :=
+  match pos, us with
+  | i :: pr, u :: ur => write_back pr ur (set_item i u items)
+  | _, _ => items
+  end.
+
+(* mergeWithPath.  [ents] = the entityIndexMap of a follow-up call (@requires, field resolver) of an
+   entity lookup: under "_entities" only the entities at these positions take part. *)
+Definition merge_with_path (base resolved : json) (path : list bytes) (ents : option (list nat)) : res json :=
   match path with
   | [] => Err EPathEmpty
   | _ =>
@@ -533,17 +592,23 @@ Definition merge_with_path (base resolved : json) (path : list bytes) : res json
         | JObj bo =>
           match obj_get s0 bo with
           | None => Err EPanic                       (* current.Type() on a nil *Value *)
-          | Some cur =>
-            n <- match cur with
-                 | JArr items => ns <- map_res (flat_count rest) items ;; Ok (fold_left Nat.add ns 0%nat)
-                 | _ => flat_count rest cur
-                 end ;;
+          | Some (JArr items) =>
+            let sel := match ents with
+                       | Some idx => if bytes_eqb s0 name_entities then Some (select_items idx items) else None
+                       | None => None
+                       end in
+            let targets := match sel with Some s => map snd s | None => items end in
+            n <- flat_items (flat_count rest) targets ;;
             if negb (Nat.eqb n (length vals)) then Err ELenMismatch
             else
-              p <- match cur with
-                   | JArr items => q <- map_state (flat_update elem rest) items vals ;; Ok (JArr (fst q), snd q)
-                   | _ => flat_update elem rest cur vals
-                   end ;;
+              q <- upd_items (flat_update elem rest) targets vals ;;
+              let items' := match sel with Some s => write_back (map fst s) (fst q) items | None => fst q end in
+              Ok (JObj (obj_set s0 (JArr items') bo))
+          | Some cur =>
+            n <- flat_count rest cur ;;
+            if negb (Nat.eqb n (length vals)) then Err ELenMismatch
+            else
+              p <- flat_update elem rest cur vals ;;
               Ok (JObj (obj_set s0 (fst p) bo))
           end
         | _ => Err EPanic
@@ -555,7 +620,7 @@ Definition merge_with_path (base resolved : json) (path : list bytes) : res json
 Definition load_step (em : enum_map) (root : json) (c : call) : res json :=
   resp <- marshal em (c_plan c) (c_resp c) ;;
   match c_kind c with
-  | CResolve | CRequired => merge_with_path root resp (c_path c)
+  | CResolve | CRequired => merge_with_path root resp (c_path c) (c_ents c)
   | CStd => merge root resp
   | CEntity => _ <- validate_entities resp (c_idx c) (c_nreps c) ;; merge_entities root resp (c_idx c)
   end.
